@@ -170,7 +170,15 @@ class Vertex(base.BaseObject):
         if not self.NEIGHBOR_CACHING:
             return self._QA_NB_INVALID
 
-        if args in self.__qa_nb_cache:
+        try:
+            hit = args in self.__qa_nb_cache
+        except TypeError:
+            # an argument that cannot be hashed (e.g. a callable object used
+            # as filterfunc that defines __eq__): such a query cannot be
+            # memoised, so it is simply computed -- as with caching disabled
+            return self._QA_NB_INVALID
+
+        if hit:
             self._qa_stats()[0] += 1
 
             return self.__qa_nb_cache[args]
@@ -211,8 +219,12 @@ class Vertex(base.BaseObject):
         """
         if not self.NEIGHBOR_CACHING:
             return
+        try:
+            self.__qa_nb_cache[args] = answer
+        except TypeError:
+            # unhashable argument: see _qa_neighbors_get
+            return
         self._qa_stats()[3] += 1
-        self.__qa_nb_cache[args] = answer
 
     def add_to_link(self, link: Link):
         """
